@@ -54,3 +54,17 @@ Example C02_nonvacuous : wf_graphb ex_G = true
   /\ ref_down ex_G [5]%N (DRelCur 1) = R2Ok (Some 4)%N (Some 5)%N /\ ref_down ex_G [3]%N (DRelCur 1) = R2Error
   /\ ref_down ex_G [2]%N (DRelId 1 2) = R2Ok None None.
 Proof. vm_compute. auto 10. Qed.
+
+(* `downgrade base`: the roots are all bases and every revision descends from a base, so the plan is
+   exactly everything that is applied — the whole applied set is removed *)
+Theorem C02_downgrade_base_removes_all : forall G Cur plan,
+  wf_refs G -> ~ cyclic (all_down G) -> ndeps_ok G ->
+  downgrade_plan G None None Cur = POk plan -> incl Cur (ids G) ->
+  forall x, In x plan <-> AncOf G Cur x.
+Proof. intros G Cur plan WF AC NOK E HC x.
+  destruct (C02_plan_exact G None None Cur plan WF AC NOK E) as [_ [Hmem _]].
+  rewrite Hmem. cbn [roots_of roots0_of]. split; [tauto|]. intros A. split; auto.
+  apply every_revision_above_a_base; auto.
+  destruct A as [c [Hc P]]. apply HC in Hc. unfold Anc in P. clear HC. induction P; auto.
+  apply IHP. eapply all_down_closed; eauto. Qed.
+Print Assumptions C02_downgrade_base_removes_all.
